@@ -34,10 +34,11 @@ var schema = gqlparser.MustLoadSchema(&ast.Source{Name: "s.graphqls", Input: `ty
 type plan struct {
 	Kind      string `json:"kind"` // sse | multipart
 	Delays    []int  `json:"delays_us"`
-	KeepAlive int    `json:"keepalive_us,omitempty"` // SSE keep-alive interval
-	Flush     int    `json:"flush_us,omitempty"`     // multipart aggregator interval (0: the transport's default)
-	Linger    int    `json:"linger_us,omitempty"`    // the handler's caller keeps the connection this long after the transport returned
-	Text      bool   `json:"text,omitempty"`         // payload data with characters JSON escapes (quotes, line breaks, unicode)
+	KeepAlive int    `json:"keepalive_us,omitempty"`   // SSE keep-alive interval
+	Flush     int    `json:"flush_us,omitempty"`       // multipart aggregator interval (0: the transport's default)
+	Linger    int    `json:"linger_us,omitempty"`      // the handler's caller keeps the connection this long after the transport returned
+	Text      bool   `json:"text,omitempty"`           // payload data with characters JSON escapes (quotes, line breaks, unicode)
+	ErrFields int    `json:"unknown_fields,omitempty"` // SSE: the query selects this many unknown fields: the operation cannot be created and one (large) error event is written
 }
 
 func spin(us int) {
@@ -57,8 +58,10 @@ var recovered int64
 
 func newServer(p plan) *httptest.Server {
 	es := &graphql.ExecutableSchemaMock{
-		SchemaFunc:     func() *ast.Schema { return schema },
-		ComplexityFunc: func(ctx context.Context, typeName, fieldName string, childComplexity int, args map[string]any) (int, bool) { return 0, false },
+		SchemaFunc: func() *ast.Schema { return schema },
+		ComplexityFunc: func(ctx context.Context, typeName, fieldName string, childComplexity int, args map[string]any) (int, bool) {
+			return 0, false
+		},
 		ExecFunc: func(ctx context.Context) graphql.ResponseHandler {
 			i := 0
 			return func(ctx context.Context) *graphql.Response {
@@ -84,15 +87,41 @@ func newServer(p plan) *httptest.Server {
 	srv.AddTransport(transport.SSE{KeepAlivePingInterval: time.Duration(p.KeepAlive) * time.Microsecond})
 	srv.AddTransport(transport.MultipartMixed{Boundary: "graphql", DeliveryTimeout: time.Duration(p.Flush) * time.Microsecond})
 	srv.AddTransport(transport.POST{})
-	srv.SetRecoverFunc(func(ctx context.Context, err any) error { atomic.AddInt64(&recovered, 1); return fmt.Errorf("P:%v", err) })
+	srv.SetRecoverFunc(func(ctx context.Context, err any) error {
+		atomic.AddInt64(&recovered, 1)
+		return fmt.Errorf("P:%v", err)
+	})
 	return httptest.NewServer(http.HandlerFunc(func(w http.ResponseWriter, r *http.Request) {
 		srv.ServeHTTP(w, r)
 		spin(p.Linger) // a middleware that does something after the GraphQL handler returned
 	}))
 }
 
+func queryOf(p plan) string {
+	q := "{ a"
+	for i := 0; i < p.ErrFields; i++ {
+		q += fmt.Sprintf(" unknownField%d", i)
+	}
+	return q + " }"
+}
+
+// plainBody: the same request over the plain POST transport (the JSON of the single response)
+func plainBody(ts *httptest.Server, p plan) ([]byte, error) {
+	b, _ := json.Marshal(map[string]string{"query": queryOf(p)})
+	req, _ := http.NewRequest("POST", ts.URL, bytes.NewReader(b))
+	req.Header.Set("Content-Type", "application/json")
+	req.Header.Set("Accept", "application/json")
+	resp, err := ts.Client().Do(req)
+	if err != nil {
+		return nil, err
+	}
+	defer resp.Body.Close()
+	return io.ReadAll(resp.Body)
+}
+
 func fetch(ts *httptest.Server, p plan) ([]byte, string, error) {
-	req, _ := http.NewRequest("POST", ts.URL, strings.NewReader(`{"query":"{ a }"}`))
+	qb, _ := json.Marshal(map[string]string{"query": queryOf(p)})
+	req, _ := http.NewRequest("POST", ts.URL, bytes.NewReader(qb))
 	req.Header.Set("Content-Type", "application/json")
 	if p.Kind == "sse" {
 		req.Header.Set("Accept", "text/event-stream")
@@ -220,6 +249,8 @@ type caseDescr struct {
 	Sig  string `json:"sig,omitempty"`
 }
 
+var errFieldChoices = []int{1, 8, 30}
+
 func genPlan(r *gen.Rand, kind string) plan {
 	p := plan{Kind: kind}
 	n := 1 + r.Intn(12)
@@ -242,6 +273,14 @@ func genPlan(r *gen.Rand, kind string) plan {
 		}
 		p.Linger = gen.Pick(r, []int{0, 0, 100, 800})
 		p.Text = r.Chance(1, 4)
+		if r.Chance(1, 5) {
+			// the operation cannot be created: one error event, the larger the longer its write takes
+			p.ErrFields = gen.Pick(r, errFieldChoices)
+			p.Delays = []int{0}
+			if p.KeepAlive == 0 || r.Bool() {
+				p.KeepAlive = gen.Pick(r, []int{1, 5, 10})
+			}
+		}
 	} else {
 		p.Flush = gen.Pick(r, []int{0, 1000, 1000, 2000, 4000})
 		p.Linger = gen.Pick(r, []int{0, 0, 500})
@@ -259,12 +298,15 @@ func Run(c *gen.Ctx) error {
 	nSSE, nMulti := 140, 140
 	if c.Thorough() {
 		nSSE, nMulti = 2500, 2500
+		errFieldChoices = []int{1, 8, 30, 120, 400}
 	}
 	var plans []plan
 	plans = append(plans,
 		plan{Kind: "sse", Delays: []int{0}}, plan{Kind: "sse", Delays: []int{0, 0, 0}, KeepAlive: 5},
 		plan{Kind: "sse", Delays: []int{300, 300, 300}, KeepAlive: 10, Linger: 800},
 		plan{Kind: "sse", Delays: []int{0, 100}, KeepAlive: 40, Text: true},
+		plan{Kind: "sse", Delays: []int{0}, KeepAlive: 1, ErrFields: 40}, plan{Kind: "sse", Delays: []int{0}, KeepAlive: 1, ErrFields: 40, Linger: 800},
+		plan{Kind: "sse", Delays: []int{0}, KeepAlive: 5, ErrFields: 40}, plan{Kind: "sse", Delays: []int{0}, ErrFields: 3},
 		plan{Kind: "multipart", Delays: []int{0}}, plan{Kind: "multipart", Delays: []int{0, 0, 0, 0}},
 		plan{Kind: "multipart", Delays: []int{0, 1500, 0, 1500, 1000}, Flush: 1000},
 		plan{Kind: "multipart", Delays: []int{0, 2500}, Flush: 1000, Linger: 500})
@@ -276,6 +318,7 @@ func Run(c *gen.Ctx) error {
 	for i := 0; i < nMulti; i++ {
 		plans = append(plans, genPlan(mr, "multipart"))
 	}
+	plain := make([][]byte, len(plans))
 	bodies := make([][]byte, len(plans))
 	ctypes := make([]string, len(plans))
 	errs := make([]error, len(plans))
@@ -289,6 +332,9 @@ func Run(c *gen.Ctx) error {
 			defer func() { <-sem }()
 			ts := newServer(plans[i])
 			bodies[i], ctypes[i], errs[i] = fetch(ts, plans[i])
+			if errs[i] == nil && plans[i].ErrFields > 0 {
+				plain[i], errs[i] = plainBody(ts, plans[i])
+			}
 			ts.Close()
 		}(i)
 	}
@@ -312,7 +358,14 @@ func Run(c *gen.Ctx) error {
 		distinct[string(b)] = true
 		if p.Kind == "sse" {
 			var ps []string
+			if p.ErrFields > 0 {
+				ps = append(ps, gen.Bytes(plain[i]))
+				counts["sse_operation_error"]++
+			}
 			for k := range p.Delays {
+				if p.ErrFields > 0 {
+					break
+				}
 				data := fmt.Sprintf(`{"n":%d}`, k)
 				if p.Text {
 					data = fmt.Sprintf(`{"n":%d,"t":"line\nbreak \"q\" \r\n--graphql--   é"}`, k)
@@ -359,7 +412,7 @@ func Run(c *gen.Ctx) error {
 	meta.Distribution["mime_parts_read"] = parts
 	meta.Evaluations = cf.Len()
 	meta.DistinctNontrivial = len(distinct)
-	meta.Rule = "raw bytes read from a real httptest.Server connection. SSE: 1..12 payloads with spin-waited gaps {0,20,60,150,400,900,1100,2500} us, keep-alive {off,1,10,40,150,600,1000} us, the caller lingering {0,100,800} us after the transport returned (so that a late ping becomes bytes), payload text with escaped line breaks / quotes / unicode / a boundary look-alike; 4 pinned plans. multipart/mixed: the same payload timing, flush interval {default 1 ms, 1, 2, 4 ms}, the end of the operation aimed at a flush tick; 4 pinned plans; each body is split strictly into boundary / header / JSON / CRLF tokens (anything else is reported) and also read by mime/multipart. The recover hook must never run."
+	meta.Rule = "raw bytes read from a real httptest.Server connection. SSE: 1..12 payloads with spin-waited gaps {0,20,60,150,400,900,1100,2500} us, keep-alive {off,1,10,40,150,600,1000} us, the caller lingering {0,100,800} us after the transport returned (so that a late ping becomes bytes), requests whose operation cannot be created (1..40 unknown fields: one error event of up to ~6 kB, expected JSON taken from the plain POST transport) under keep-alive 1..10 us, payload text with escaped line breaks / quotes / unicode / a boundary look-alike; 4 pinned plans. multipart/mixed: the same payload timing, flush interval {default 1 ms, 1, 2, 4 ms}, the end of the operation aimed at a flush tick; 4 pinned plans; each body is split strictly into boundary / header / JSON / CRLF tokens (anything else is reported) and also read by mime/multipart. The recover hook must never run."
 	if len(descr) > 6 {
 		meta.Samples = append(meta.Samples, descr[2], descr[6])
 	}
